@@ -4,7 +4,7 @@
     [Value x rest] with [rest] a suffix of [bs] (consumed <= available), or [Invalid];
     never [Oob] (read outside the buffer), never [BadAlloc] (reserve above alloc_cap). *)
 From Coq Require Import ZArith List.
-From VB Require Import Gen.Consts Serde.StreamDefs Serde.CodecSpec Serde.StreamProofs Serde.EntityDefs Serde.Theorems Serde.FitsProofs Serde.StoredDefs Serde.StoredTheorems.
+From VB Require Import Gen.Consts Serde.StreamDefs Serde.CodecSpec Serde.StreamProofs Serde.EntityDefs Serde.Theorems Serde.FitsProofs Serde.StoredDefs Serde.StoredTheorems Serde.AddrNorm Text.TextCommon Text.AddressDefs.
 Local Open Scope Z_scope.
 
 Theorem C06_primitives_total : forall bs,
@@ -95,3 +95,11 @@ Print Assumptions C06_parse_total_StoredBlockIndex_Vbk.
 Theorem C06_parse_total_StoredBlockIndex_Alt : c06_ok c_stored_alt.
 Proof. exact stored_alt_c06. Qed.
 Print Assumptions C06_parse_total_StoredBlockIndex_Alt.
+
+(** which address wire forms are accepted, over the address model of property C18: (type byte, bytes) is accepted iff
+    Address::fromString accepts EncodeBase58|59(bytes) (by wire type) — the resulting type comes from the TEXT *)
+Theorem C06_address_accepted_wire_forms : forall sha256 ty b t' b', addr_norm_c18 sha256 ty b = Some (t', b') ->
+  exists text a, text_of_wire ty b = Ok text /\ addr_from_string sha256 text = Ok a /\
+                 t' = AddressDefs.addr_type a /\ (ty = ADDR_STANDARD \/ ty = ADDR_MULTISIG).
+Proof. exact addr_norm_c18_accepts. Qed.
+Print Assumptions C06_address_accepted_wire_forms.
